@@ -362,7 +362,16 @@ def _run_delay(workload, k):
 
 def _timed_rule(rec, completes, what):
     """A timed deref may yield the timeout value only if nothing completed strictly before
-    its deadline, and never before its deadline has been reached."""
+    its deadline, and never before its deadline has been reached; when the clock was not
+    jumped forward it waits "at most timeout-ms" (core.lpy deref docstring): it is back by
+    its virtual deadline whatever it returns."""
+    k = rec.k
+    if not k.jumps:
+        for o, (t0, t1) in rec.ops:
+            if o.kind == "tderef":
+                dl = t0 + o.args["ms"] / 1000.0
+                if t1 > dl + 1e-9:
+                    return f"{ID}/{what}-timed-deref-overslept", o
     for o, (t0, t1) in rec.ops:
         if o.kind == "tderef" and o.result == ("ok", "TIMEOUT"):
             dl = t0 + o.args["ms"] / 1000.0
